@@ -9,11 +9,11 @@ SEQ = [Tpl("defgate", "DEFGATE S a b AS SEQUENCE:\n\tX a"), Tpl("gate", "{g} {q}
 TP = [t for t in TPLS if t.name in ("declare", "defcal", "defcalmeasure")] + SEQ
 OPS = {"quick": ["add_instruction", "add_assign", "clone_without_body", "rebuild", "wrap_in_loop2", "expand_defgate_sequences"],
        "thorough": ["add_instruction", "add_assign", "clone_without_body", "clone", "rebuild", "wrap_in_loop2", "wrap_in_loop0", "wrap_in_loop1", "expand_defgate_sequences",
-                    "expand_calibrations"]}
-STATUS_OPS = ("expand_defgate_sequences", "expand_calibrations")          # these script steps also report Ok / Err
+                    "expand_calibrations", "simplify", "resolve_placeholders"]}
+STATUS_OPS = ("expand_defgate_sequences", "expand_calibrations", "simplify")          # these script steps also report Ok / Err
 
 
-RESET_OPS = ("clone_without_body", "wrap_in_loop0", "wrap_in_loop2", "expand_defgate_sequences", "expand_calibrations")
+RESET_OPS = ("clone_without_body", "wrap_in_loop0", "wrap_in_loop2", "expand_defgate_sequences", "expand_calibrations", "simplify")
 
 
 def oracle(req, steps, obs, m=None):
@@ -37,8 +37,8 @@ class C10(Check):
     functions = ["Program::{from_instructions,add_instruction,clone_without_body_instructions,wrap_in_loop,get_used_qubits,to_instructions}", "<Program as AddAssign>::add_assign",
                  "<Program as PartialEq>::eq", "Instruction::get_qubits", "Calibrations::*", "CalibrationSet::*"]
     assumptions = ["HashSet<Qubit> modelled as a set with structural Eq of Qubit (interpreted PartialEq for placeholders is not exercised: fixed qubits only)",
-                   "histories: a start sequence followed by operations from the listed alphabet (gate-sequence expansion with the filter `all`; calibration expansion in the thorough tier)"]
-    outside = ["histories longer than the bound", "operations simplify, resolve_placeholders inside histories (placeholder resolution rebuilds the cache: C34)"]
+                   "histories: a start sequence followed by operations from the listed alphabet (gate-sequence expansion with the filter `all`; calibration expansion, simplify and resolve_placeholders in the thorough tier)"]
+    outside = ["histories longer than the bound", "programs with placeholders (resolve_placeholders is exercised on placeholder-free programs only: C34 covers the rest)"]
     N = {"quick": 1, "thorough": 2}
     H = {"quick": 2, "thorough": 3}
     sample_rate = 128
@@ -63,6 +63,7 @@ class C10(Check):
             elif op == "rebuild": s.append(["rebuild", "p", "p"])
             elif op.startswith("wrap_in_loop"): s.append(["wrap_in_loop", "p", "p", int(op[-1])])
             elif op in STATUS_OPS: s.append([op, "p", "p"])
+            elif op == "resolve_placeholders": s.append(["resolve_placeholders", "p"])
             s += [["used_qubits", "p"], ["get_qubits", "p"]]
         s += [["rebuild", "r", "p"], ["eq", "p", "r"], ["to_instructions", "p"], ["to_instructions", "r"]]
         return s
